@@ -107,6 +107,11 @@ class HashGlobalVarDesc:
                         pack("q" if self.fmt.islower() else "Q", value))
             return
         value = ensure_expression(ebpf, value)
+        # like all memory, see Memory._set
+        if self.fmt == "x" and not value.fixed:
+            value = value * Expression.FIXED_BASE
+        elif self.fmt != "x" and value.fixed:
+            value = value / Expression.FIXED_BASE
         get_address = value.get_address
         if getattr(value, "fmt", "Q") not in ("Q", "q", "x"):
             # the helper reads all 8 bytes of the value, a narrower
